@@ -35,6 +35,9 @@ type c14Expect struct {
 	Rows  []any     `json:"rows"`
 	Sites []c14Site `json:"sites"`
 	Place string    `json:"place"`
+	// CompletionOnly: only the completion-before-return clauses are decided (UNION results are
+	// broken on this tree - C06, not claimed - and EXISTS may stop evaluating early)
+	CompletionOnly bool `json:"completion_only,omitempty"`
 }
 
 func c14ItemSQL(it c14Item) string {
@@ -124,9 +127,9 @@ func genC14(t *rapid.T) *Bundle {
 		return genC14Reregister(t)
 	}
 	nrows := rapid.IntRange(0, 6).Draw(t, "nrows")
-	place := rapid.SampledFrom([]string{"top", "derived_star", "cte", "subquery", "derived_cols", "subquery_in_derived", "subquery_in_cte"}).Draw(t, "place")
+	place := rapid.SampledFrom([]string{"top", "derived_star", "cte", "subquery", "derived_cols", "subquery_in_derived", "subquery_in_cte", "union_branch", "exists", "cte_chain"}).Draw(t, "place")
 	// the calls sit in a row-scoped subquery (possibly itself nested in a derived table / CTE)
-	inSub := strings.HasPrefix(place, "subquery")
+	inSub := strings.HasPrefix(place, "subquery") || place == "exists"
 	rows := make([]any, 0, nrows)
 	for i := 0; i < nrows; i++ {
 		r := map[string]any{
@@ -193,6 +196,10 @@ func genC14(t *rapid.T) *Bundle {
 			site++
 			it.Site = site
 			it.Alias = fmt.Sprintf("c%d", site)
+			// now and then two items write the same output column: the later one wins, qualified or not
+			if rapid.IntRange(0, 9).Draw(t, "alias_collision") == 0 {
+				it.Alias = "dup"
+			}
 		}
 		items = append(items, it)
 	}
@@ -237,6 +244,12 @@ func genC14(t *rapid.T) *Bundle {
 		query = fmt.Sprintf("WITH c AS (SELECT %s FROM t%s) SELECT * FROM c", selSQL, where)
 	case "subquery":
 		query = fmt.Sprintf("SELECT id, (SELECT %s FROM n) AS sub FROM t", selSQL)
+	case "union_branch":
+		query = fmt.Sprintf("SELECT id FROM t UNION ALL SELECT %s FROM t%s", selSQL, where)
+	case "exists":
+		query = fmt.Sprintf("SELECT id FROM t WHERE EXISTS (SELECT %s FROM n)", selSQL)
+	case "cte_chain":
+		query = fmt.Sprintf("WITH c1 AS (SELECT %s FROM t%s), c2 AS (SELECT * FROM c1) SELECT * FROM c2", selSQL, where)
 	case "subquery_in_derived":
 		query = fmt.Sprintf("SELECT * FROM (SELECT id, (SELECT %s FROM n) AS sub FROM t) d", selSQL)
 	case "subquery_in_cte":
@@ -256,7 +269,7 @@ func genC14(t *rapid.T) *Bundle {
 		}
 	}
 	hasImmq = hasImmq && evaluated > 0
-	exp := c14Expect{Place: place, Error: hasImmq}
+	exp := c14Expect{Place: place, Error: hasImmq, CompletionOnly: place == "union_branch" || place == "exists"}
 	sites := map[int]*c14Site{}
 	for _, it := range items {
 		if it.Kind != "col" && it.Kind != "immq" {
@@ -399,7 +412,7 @@ func evalC14(b *Bundle, r *Runner) []*Violation {
 			}
 		}
 		sort.Strings(got)
-		if strings.Join(got, "|") != strings.Join(s.Args, "|") {
+		if !exp.CompletionOnly && strings.Join(got, "|") != strings.Join(s.Args, "|") {
 			return []*Violation{mkViolation(b, "CALL_COUNT", "kind="+s.Kind, fmt.Sprintf("%s call site %d: expected invocations %v, observed %v", s.Kind, s.ID, s.Args, got), o)}
 		}
 		if neverFinished > 0 {
@@ -416,7 +429,7 @@ func evalC14(b *Bundle, r *Runner) []*Violation {
 		}
 	}
 	got := normJSON(op.Rows)
-	if !jsonEqual(got, exp.Rows) {
+	if !exp.CompletionOnly && !jsonEqual(got, exp.Rows) {
 		cls := "ROWS_MISMATCH"
 		if len(op.Leaks) > 0 {
 			cls = "UNRESOLVED_SLOT_IN_RESULT"
